@@ -89,8 +89,15 @@ def work_contract(job):
         rec['path_outcomes'] = sorted(set(p['outcome'] for p in res['paths']))
         rec['gen_s'] = res['gen_s']
         rec['trivial'] = eng.trivial
+        direct_hit = {}       # clause name -> replayed failure (input-independent replays are run once per clause)
         for oi, o in enumerate(res['obls']):
             if oi % nshards != shard:
+                continue
+            if o.name in direct_hit:
+                # the same clause already failed on the real code on another path: no need to spend solver budget again
+                orec = dict(direct_hit[o.name])
+                orec['path'] = o.path_id
+                rec['obls'].append(orec)
                 continue
             d = discharge(o, tier, second_opinion=(tier == 'thorough'))
             orec = {'name': o.name, 'kind': o.kind, 'status': d['status'], 'backend': d['backend'], 'seconds': round(d['seconds'], 4),
@@ -106,6 +113,22 @@ def work_contract(job):
                         orec['witness'] = w
                         orec['replay'] = rr
                         orec['model'] = 'candidate model (quantifiers instantiated, not model-checked); confirmed by replay'
+                    else:
+                        orec['candidate_replay'] = rr
+                except Exception as e:
+                    orec['candidate_replay'] = {'verdict': 'error', 'detail': f'{type(e).__name__}: {e}'}
+            if d['status'] == 'unknown' and c.opts.get('replay_direct') and orec['status'] == 'unknown':
+                # undecided by the solvers: a contract-specific replay on the real code may still exhibit a failing input
+                # (only a replayed failure turns the open obligation into a violation; otherwise it stays undecided)
+                try:
+                    rp.Builder_(repo)
+                    rr = c.opts['replay_direct'](repo, o.name)
+                    if rr.get('verdict') == 'violates':
+                        orec['status'] = 'refuted'
+                        orec['replay'] = rr
+                        orec['witness'] = rr.get('input')
+                        orec['model'] = 'obligation left open by z3 and cvc5; failing input found by replaying the contract on the real function'
+                        direct_hit[o.name] = dict(orec)
                     else:
                         orec['candidate_replay'] = rr
                 except Exception as e:
@@ -237,7 +260,7 @@ def main(argv=None):
     for c in R.all():
         if c.assume_only:
             continue
-        names = ' '.join(n for n, _ in c.ensures) + ' ' + ' '.join(r.name for r in c.raises)
+        names = ' '.join(n for n, _ in c.ensures) + ' ' + ' '.join(r.name for r in c.raises) + ' ' + ' '.join(c.opts.get('watch', {}).values())
         if prop in c.props or prop in re.findall(r'C\d\d', names):
             ns = int(c.opts.get('shards', 1))
             for k in range(ns):
